@@ -1727,6 +1727,11 @@ class PSBTOut:
                     )
         elif self.witness_script:
             if self.redeem_script:
+                # p2sh-p2wsh
+                if not script_pubkey.is_p2sh() or not self.redeem_script.is_p2wsh():
+                    raise ValueError(
+                        "WitnessScript and RedeemScript provided for non-p2sh-p2wsh output"
+                    )
                 h160 = script_pubkey.commands[1]
                 if self.redeem_script.hash160() != h160:
                     raise ValueError(
@@ -1734,6 +1739,10 @@ class PSBTOut:
                     )
                 s256 = self.redeem_script.commands[1]
             else:
+                if not script_pubkey.is_p2wsh():
+                    raise ValueError(
+                        "WitnessScript provided for non-p2wsh ScriptPubKey"
+                    )
                 s256 = script_pubkey.commands[1]
             if self.witness_script.sha256() != s256:
                 raise ValueError(
